@@ -100,6 +100,16 @@ def rule_cell_values(ctx):
         ("negative whole number", "NUMBER", -12.0, None, "-12"),
         ("fraction", "NUMBER", 2.5, None, "2.5"),
         ("big whole number", "NUMBER", 9007199254740992.0, None, "9007199254740992"),
+        ("hundred", "NUMBER", 100.0, None, "100"),
+        ("trailing zeros before the dot", "NUMBER", 1200.0, None, "1200"),
+        ("half", "NUMBER", 0.5, None, "0.5"),
+        ("small fraction", "NUMBER", 0.0001, None, "0.0001"),
+        ("exponent, fractional mantissa", "NUMBER", 1.5e20, None, "1.5e+20"),
+        ("exponent ending in zero", "NUMBER", 6.25e100, None, "6.25e+100"),
+        ("negative exponent", "NUMBER", 2.5e-10, None, "2.5e-10"),
+        ("exponent, whole mantissa", "NUMBER", 1e20, None, "1e+20"),
+        ("2^53 + 2^60 scale", "NUMBER", 1e16, None, "1e+16"),
+        ("negative tiny", "NUMBER", -1.75e-300, None, "-1.75e-300"),
         ("boolean true", "BOOLEAN", 1, None, "1"),
         ("boolean false", "BOOLEAN", 0, None, "0"),
         ("date and time", "DATE", 41000.5, (2012, 4, 1, 12, 0, 0), "2012-04-01 12:00:00"),
